@@ -245,6 +245,22 @@ def LocalId.Valid : LocalId → Prop
 def startsWith (s : Str) (c : Char) : Bool := s.head? == some c
 def endsWith (s : Str) (c : Char) : Bool := s.getLast? == some c
 
+/-- the RUID branch of `from_str` on `chars = s[1..len-1].chars().collect::<Vec<char>>()` -/
+def parseRuidChars (chars : Str) : PR LocalId :=
+  if chars.length = 32 * 2 + 3 then
+    match chars[16]?, chars[33]?, chars[50]? with
+    | some a, some b, some c =>
+      if a = '-' ∧ b = '-' ∧ c = '-' then
+        let stripped := chars.filter (· ≠ '-')
+        if utf8Len stripped = 64 then
+          match hexDecode stripped with
+          | none => .err .ruid
+          | some bs => if bs.length = 32 then .ok (.ruid bs) else .panic
+        else .err .ruid
+      else .err .ruid
+    | _, _, _ => .panic
+  else .err .ruid
+
 /-- `impl FromStr for NonFungibleLocalId` -/
 def parseLocalId (s : Str) : PR LocalId :=
   if startsWith s '<' && endsWith s '>' then
@@ -276,20 +292,7 @@ def parseLocalId (s : Str) : PR LocalId :=
   else if startsWith s '{' && endsWith s '}' then
     match inner s with
     | none => .panic
-    | some chars =>
-      if chars.length = 32 * 2 + 3 then
-        match chars[16]?, chars[33]?, chars[50]? with
-        | some a, some b, some c =>
-          if a = '-' ∧ b = '-' ∧ c = '-' then
-            let stripped := chars.filter (· ≠ '-')
-            if utf8Len stripped = 64 then
-              match hexDecode stripped with
-              | none => .err .ruid
-              | some bs => if bs.length = 32 then .ok (.ruid bs) else .panic
-            else .err .ruid
-          else .err .ruid
-        | _, _, _ => .panic
-      else .err .ruid
+    | some chars => parseRuidChars chars
   else .err .unknown
 
 /-- the four 16-digit groups of a RUID separated by hyphens (`&hex[0..16]` … `&hex[48..64]`; `hex` has
